@@ -1984,6 +1984,355 @@ def main(a):
 print(main(inp()))
 ''')
 
+# ---- shapes contributed by the third red-team round (each stands for a class of neighbours) ----------------------
+for _k, _arg in {"set-literal": "{3, 2, a}", "tuple-literal": "(3, 2, a)", "dict-literal": "{3: 1, a: 2}", "string": '"ba"',
+                 "dup-set": "{4, 4, 4}", "generator": "(v for v in (3, 2))", "name": "xs", "call": "sorted(xs)",
+                 "starred-list": "[*xs, 5]", "two-args-safe": "[3, 2]"}.items():
+    _add("fixes.replace_collection_add_update_with_collection_literal", "list-extend-" + _k, """
+def main(a, xs):
+    x = [1]
+    x.extend(%s)
+    return x
+
+
+print(main(inp(), [inp(), 2]))
+""" % _arg)
+    _add("fixes.replace_collection_add_update_with_collection_literal", "set-update-" + _k, """
+def main(a, xs):
+    y = {1}
+    y.update(%s)
+    return sorted(y, key=repr)
+
+
+print(main(inp(), [inp(), 2]))
+""" % _arg)
+    _add("fixes.replace_listcomp_append_with_plus", "extend-" + _k, """
+def main(a, xs):
+    x = [v for v in xs]
+    x.extend(%s)
+    return x
+
+
+print(main(inp(), [inp(), 2]))
+""" % _arg)
+    _add("fixes.replace_setcomp_add_with_union", "update-" + _k, """
+def main(a, xs):
+    y = {v for v in xs}
+    y.update(%s)
+    return sorted(y, key=repr)
+
+
+print(main(inp(), [inp(), 2]))
+""" % _arg)
+
+for _k, _loop in {
+    "starred-tail-two": "for name, _, *coords in zip(names, ids, xs, ys):\n        out.append((name, coords))",
+    "starred-tail-one": "for name, _, *coords in zip(names, ids, xs):\n        out.append((name, coords))",
+    "starred-tail-none": "for name, _, *rest in zip(names, ids):\n        out.append((name, rest))",
+    "starred-head": "for *heads, _, y in zip(names, ids, xs, ys):\n        out.append((heads, y))",
+    "two-unused": "for a, _, e, _ in zip(names, ids, xs, ys):\n        out.append((a, e))",
+    "nested-target": "for (a, _), y in zip(zip(names, ids), ys):\n        out.append((a, y))",
+    "shorter-unused": "for a, _ in zip(names, ids[:2]):\n        out.append(a)",
+    "strict": "for a, _ in zip(names, ids, strict=True):\n        out.append(a)",
+    "unused-call": "for a, _ in zip(names, (effect(i) for i in ids)):\n        out.append(a)",
+    "comprehension": "out = [(name, sum(coords)) for _, name, *coords in zip(ids, names, xs, ys)]",
+}.items():
+    _add("fixes.unused_zip_args", _k, """
+def main(p):
+    names = ["a", "b", "c"]
+    ids = [1, 2, p]
+    xs = [10, 20, 30]
+    ys = [100, 200, 300]
+    out = []
+    %s
+    return out
+
+
+print(main(inp()))
+""" % _loop)
+
+_add("fixes.early_continue", "nested-if-in-else-not-last", """
+def main(xs):
+    total = 0
+    for x in xs:
+        if x % 2 == 0:
+            total += x
+        else:
+            if x > 1:
+                total -= 1
+            else:
+                total += 10
+                total *= 2
+                print("small", x)
+            print("odd", x, total)
+    return total
+
+
+print(main([inp(), inp(), 2, 3, 1]))
+""")
+_add("fixes.early_continue", "nested-if-in-else-then-append", """
+def main(values):
+    seen = []
+    for v in values:
+        if v < 0:
+            print("negative", v)
+        else:
+            if v > 2:
+                print("huge", v)
+            else:
+                w = v * 3
+                w += 1
+                print("regular", v, w)
+            seen.append(v)
+    return seen
+
+
+print(main([inp(), inp(), 3, 1]))
+""")
+_add("fixes.early_continue", "nested-loop-in-else", """
+def main(rows):
+    for row in rows:
+        if not row:
+            print("empty row")
+        else:
+            for cell in row:
+                if cell > 1:
+                    print("big", cell)
+                else:
+                    half = cell * 2
+                    print("cell", cell)
+                    print("half", half)
+                print("done with", cell)
+    return len(rows)
+
+
+print(main([[inp(), 2, 1], [], [inp()]]))
+""")
+_add("fixes.early_continue", "elif-chain-long-else", """
+def main(xs):
+    total = 0
+    for x in xs:
+        if x % 2 == 0:
+            total += x
+        elif x > 1:
+            total -= 1
+        else:
+            total += 10
+            total *= 2
+            print("small", x)
+    return total
+
+
+print(main([inp(), inp(), 2, 3, 1]))
+""")
+_add("fixes.early_continue", "long-else-uses-loopvar-after", """
+def main(xs):
+    y = 0
+    for x in xs:
+        if x > 1:
+            y = 13
+        else:
+            x += 1
+            x *= 12
+            print(x > 30)
+            y = 100 - x
+    return y
+
+
+print(main([inp(), inp(), 2]))
+""")
+
+_add("object_oriented.remove_unused_self_cls", "same-name-static-elsewhere", """
+class Greeter:
+    @staticmethod
+    def describe():
+        return "greeter"
+
+    def version(self):
+        return 2
+
+
+class Counter:
+    def __init__(self, count):
+        self.count = count
+
+    def describe(self):
+        return "counter %d" % self.count
+
+    def report(self):
+        print(self.describe())
+
+
+Counter(inp()).report()
+print(Greeter.describe(), Greeter().version())
+""")
+_add("object_oriented.remove_unused_self_cls", "same-name-classmethod-elsewhere", """
+class Counter:
+    def __init__(self, count):
+        self.count = count
+
+    def build(self, extra):
+        return self.count + extra
+
+    def report(self, extra):
+        print("built", self.build(extra))
+
+    def unit(self):
+        return 1
+
+
+class Factory:
+    made = 0
+
+    @classmethod
+    def build(cls, extra):
+        cls.made += extra
+        return cls.made
+
+
+c = Counter(inp())
+c.report(5)
+print(c.unit(), Factory.build(2), Factory.build(3))
+""")
+_add("object_oriented.remove_unused_self_cls", "calls-own-static-and-instance", """
+class A:
+    k = 7000
+
+    @staticmethod
+    def s(x):
+        return x + 1
+
+    def inst(self, x):
+        return self.k + x
+
+    def via_static(self, x):
+        return self.s(x)
+
+    def via_inst(self, x):
+        return self.inst(x)
+
+    @classmethod
+    def via_cls(cls, x):
+        return cls.s(x) + cls.k
+
+
+a = A()
+print(a.via_static(inp()), a.via_inst(inp()), A.via_cls(1), a.via_cls(2))
+""")
+
+for _k, _e in {"list-tuple-reversed-sorted": "list(tuple(reversed(sorted(v))))",
+               "tuple-iter-reversed-sorted-rev": "tuple(iter(reversed(sorted(v, reverse=r))))",
+               "sorted-list-reversed-sorted": "sorted(list(reversed(sorted(v))))",
+               "list-gen-over-reversed-sorted-key": "list(tuple(x + 1 for x in reversed(sorted(v, key=lambda q: -q))))",
+               "list-reversed-list": "list(reversed(list(v)))", "set-list-sorted": "sorted(set(list(sorted(v))))",
+               "sum-list-tuple": "sum(list(tuple(v)))", "twice": "(list(reversed(sorted(v))), list(reversed(sorted(v))))"}.items():
+    _add("performance.remove_redundant_chained_calls", "chain-" + _k, """
+def main(v, r):
+    return %s
+
+
+print(main([inp(), inp(), 2, 1], inp() > 0))
+""" % _e)
+
+_add("fixes.delete_pointless_statements", "pure-function-rebound-in-loop", """
+def trace(*message):
+    return None
+
+
+def main():
+    global trace
+    total = 0
+    for level in (0, 1, 2, 3):
+        if level == 2:
+            trace = effect
+        total += level
+        total
+        trace("level", level)
+    return total
+
+
+print(main())
+""")
+_add("fixes.delete_pointless_statements", "pure-function-rebound-in-if", """
+VERBOSE = inp() > -9
+
+
+def log(message):
+    return None
+
+
+if VERBOSE:
+    log = effect
+
+squares = [number * number for number in range(4)]
+squares
+log("squares computed")
+print(squares)
+""")
+_add("fixes.delete_pointless_statements", "pure-function-rebound-by-global", """
+def report(message):
+    return None
+
+
+def enable_reports():
+    global report
+    report = effect
+
+
+words = ["a", "bb", inp()]
+len(words)
+report("before")
+enable_reports()
+report("after")
+print(words)
+""")
+_add("fixes.delete_pointless_statements", "pure-function-rebound-toplevel", """
+def report(message):
+    return None
+
+
+report("before")
+report = effect
+report("after")
+print(inp())
+""")
+_add("fixes.delete_pointless_statements", "pure-function-shadowed-by-parameter", """
+def report(message):
+    return None
+
+
+def main(report):
+    report("inside")
+    return 1
+
+
+report("outside")
+print(main(effect))
+""")
+_add("fixes.unused_zip_args", "pure-function-rebound", """
+def stamps():
+    return (1, 2, 3)
+
+
+def noisy_stamps():
+    effect("stamps requested")
+    return (4, 5, 6)
+
+
+def main():
+    global stamps
+    out = []
+    for attempt in (0, 1):
+        if attempt == 1:
+            stamps = noisy_stamps
+        for _, letter in zip(stamps(), "xyz"):
+            out.append((attempt, letter))
+    return out
+
+
+print(main())
+""", tape=8)
+
 
 def skeletons():
     out = []
